@@ -12,6 +12,7 @@ ENGINES = {
     "p_total": "rapidcheck-generated file maps (neighbours, soup, bytes, truncated constructs, broken maps) + exhaustive single-token edits; sanitizers + result-shape invariant",
     "p_dbg": "exhaustive short API histories + rapidcheck histories on generated programs vs an explicit stop/enable model over the recorded uninterrupted run",
     "p_lr": "rapidcheck-generated small grammars x all bounded strings vs a chart-based CFG reference (membership, unique derivation fold, FIRST sets)",
+    "p_macro": "rapidcheck-generated macro sets x token streams + exhaustive short streams / patterns vs reference matcher (chart), reference expander and reference LR(1) prefix analysis",
     "p_scan": "rapidcheck tape generator + exhaustive enumerators vs reference lexer / include resolver",
 }
 
@@ -331,6 +332,86 @@ PROPS["C13"] = dict(
 )
 
 
+PROPS["C09"] = dict(
+    harness="p_macro",
+    phases=dict(quick=[enum(8), rc(4, 250), rc(4, 1000, flavour="fast", seed_offset=100)],
+                thorough=[enum(16), rc(8, 6000), rc(8, 40000, flavour="fast", seed_offset=100)]),
+    rule=("cases: macro sets of 1-4 definitions (priorities from {none,5,5,9} so ties and inversions are frequent, literal identifiers / "
+          "operator characters / integers / keywords from a small pool so candidates overlap, all five slot kinds, bodies with $n, #n, "
+          "literals and re-emitted patterns) x token streams built from pattern instances whose slots are filled with identifiers, integers, "
+          "nested calls, argument lists and multi-statement sequences, plus noise; plus ALL streams of length <=5 (quick) / <=6 (thorough) "
+          "over a 5-token vocabulary for 4 fixed macro families. Only definitions produced by extract_macros are passed to apply_macros. "
+          "Oracle: the run with budgets 1,2,3,... is validated step by step: the reference matcher (chart recogniser over the slot grammar "
+          "with text constraints) computes all (macro,start,length) matches of the usable definitions, the arg-max set by (priority, "
+          "leftmost, longest), and the substitution from the unique derivation; the implementation's next sequence must equal one of the "
+          "arg-max rewrites (all other tokens untouched incl. file/line; temporaries modulo naming) and must stop exactly when nothing "
+          "matches. Non-trivial: >=2 rewrites with competing candidates (different macros or starts); distinct by content hash."),
+    exhaustive_note=dict(quick="all streams of length <=5 over {A,x,!,1,;} for 4 macro families", thorough="all streams of length <=6 over {A,x,!,1,;} for 4 macro families"),
+    min_nontrivial=dict(quick=500, thorough=10000),
+    assumptions=["slot contents follow the slot grammar implemented in macro.cpp (one label per statement, ARGS non-empty)",
+                 "full ties between different macros (same priority, start and length) leave the choice open",
+                 "cases in which an accepted pattern has non-unique slot boundaries are handed to C12 and not judged here"],
+    technique="property-based testing: rapidcheck-generated macro sets and streams + exhaustive short streams; step-by-step validation against a reference matcher/expander",
+    level_text="Exploration with an exhaustive sub-space: every rewriting step of every generated run is validated against a reference matcher (priority, leftmost, longest, substitution).",
+    level_note="trusted: chart recogniser (ref_cfg.hpp), reference slot grammar and expander (ref_macro.hpp), reference lexer",
+)
+
+PROPS["C10"] = dict(
+    harness="p_macro",
+    phases=dict(quick=[rc(4, 250), rc(4, 1000, flavour="fast", seed_offset=100), rc(6, 1500, harness="p_sem", flavour="fast", seed_offset=200)],
+                thorough=[rc(8, 6000), rc(8, 40000, flavour="fast", seed_offset=100), rc(8, 60000, harness="p_sem", flavour="fast", seed_offset=200)]),
+    rule=("cases: (token level, p_macro) macro sets whose bodies contain #n, streams with repeated and nested pattern instances, half of them "
+          "with the definitions alternating between two included files so that temporaries are defined on equal line numbers; every step "
+          "of the validated run (see C09) is checked: equal n => equal name within the step, different n => different names, the name is "
+          "no identifier of the input or of a macro body, the reference lexer does not tokenise it as one identifier, and no other step "
+          "used it. (semantic level, p_sem) generated programs that use the temporary-using library macros IF-THEN-ELSE / SWAP / REPEAT "
+          "nested in their own slots and repeatedly, compared with the reference interpreter's native meaning of these constructs. "
+          "Non-trivial: >=2 expansion steps introduce a temporary with the same n / a program with >=2 uses of temporary-using macros."),
+    min_nontrivial=dict(quick=500, thorough=10000),
+    assumptions=["see C09 for the step validation; see C01 for the semantic comparison"],
+    technique="property-based testing: temporary-name invariants on every validated rewriting step + end-to-end values of programs nesting temporary-using macros",
+    level_text="Exploration: naming invariants per rewriting step on generated macro sets, and semantic interference checks on generated programs.",
+    level_note="trusted: reference expander, reference interpreter",
+)
+
+PROPS["C11"] = dict(
+    harness="p_macro",
+    phases=dict(quick=[rc(6, 200), rc(8, 700, flavour="fast", seed_offset=100)], thorough=[rc(8, 6000), rc(8, 50000, flavour="fast", seed_offset=100)]),
+    rule=("cases: macro sets biased to self-reproducing / mutually recursive / growing bodies, budgets 1..64 directly on apply_macros, and the "
+          "fixed 1024 through compile() for divergent sets whose stream does not grow. Oracle: the reference expander performs min(budget, "
+          "needed) steps; apply_macros(budget) must return exactly that sequence (so at most `budget` steps were taken); if a pattern "
+          "still matches afterwards the too-many-substitutions error must be present (it may also be present when exactly `budget` steps "
+          "were needed), if fewer steps sufficed it must be absent; through compile() an unfinished expansion yields an incorrect result "
+          "with that error. Non-trivial: divergent at the budget, or needing >= budget-1 steps; distinct by hash of source+budget."),
+    min_nontrivial=dict(quick=500, thorough=10000),
+    assumptions=["cases where the reference hits a full tie, ambiguous slot boundaries or a stream above 90 tokens are discarded and counted: the implementation is not run with the full budget there (exponential growth of slot-duplicating bodies, known finding F11)",
+                 "compile() with its 1024 passes is only exercised for divergent sets with a non-growing stream (cost is quadratic otherwise)"],
+    technique="property-based testing: rapidcheck-generated divergent macro sets x budgets vs a reference expander (step count, error flag)",
+    level_text="Exploration: step count and error flag against a reference expander for budgets 1..64 and the compiler's 1024.",
+    level_note="trusted: reference expander (ref_macro.hpp)",
+)
+
+PROPS["C12"] = dict(
+    harness="p_macro",
+    phases=dict(quick=[enum(8), rc(4, 300), rc(4, 1200, flavour="fast", seed_offset=100)],
+                thorough=[enum(16), rc(8, 4000), rc(8, 30000, flavour="fast", seed_offset=100)]),
+    rule=("cases: ALL patterns of length <=3 (quick: 2379) / <=4 (thorough: 30940) over 13 symbols (5 slot kinds; literals ; , id int "
+          "operator END DO :=), and random patterns up to length 8 each with its four open-ended variants (X <P>, X <ARGS>, X <P> ;, X "
+          "<ARGS> ,). Oracle: an independent canonical LR(1) construction in prefix mode over the same slot grammar: the non-linear error "
+          "is reported exactly when the reference finds a table cell with two different actions, and is positioned at the definition; "
+          "semantic cross-checks independent of that reference: the open-ended variants are always rejected; an accepted pattern "
+          "matches generated streams with at most one length per start and one derivation; a rejected macro is never applied and does "
+          "not prevent another macro from being applied. Non-trivial: pattern with a <V>, <ARGS> or <P> slot; distinct by pattern text."),
+    exhaustive_note=dict(quick="all 2379 patterns of length <=3 over 13 symbols", thorough="all 30940 patterns of length <=4 over 13 symbols"),
+    min_nontrivial=dict(quick=1000, thorough=15000),
+    assumptions=["'deterministic => accepted' rests on the reference LR(1) construction, i.e. on the same definition of determinism as the implementation; the semantic cross-checks cover the other direction only",
+                 "'<P> ; !' is recognisable with one token of lookahead; the property's examples are read as instances of its defining clause"],
+    technique="property-based testing: exhaustive short patterns + rapidcheck random patterns vs a reference LR(1) prefix-conflict analysis and semantic cross-checks",
+    level_text="Exploration with an exhaustive sub-space (all patterns up to length 3/4).",
+    level_note="trusted: reference LR(1) (ref_lr1.hpp), chart recogniser",
+)
+
+
 def run_check(chk, drv):
     cfg = chk.cfg
     binp = drv.build_harness(cfg["harness"], chk.th)
@@ -354,6 +435,7 @@ def run_check(chk, drv):
         spawned.append(chk.spawn_phase(bins[key], ph, tagprefix="%s-%s%d-" % (key[0], key[1], k)))
     for ws in spawned:
         chk.collect_phase(ws)
+    chk.run_probes(drv.build_harness)
     return chk.finish()
 
 
